@@ -97,15 +97,19 @@ def jack_matmul(*operands):
         return base_matrix
 
     if any(isinstance(o.flat[0], CObs) for o in operands):
-        name = operands[0].flat[0].real.names[0]
-        idl = operands[0].flat[0].real.idl[name]
+        first = [o.flat[0] for o in operands if isinstance(o.flat[0], (Obs, CObs))][0]
+        if isinstance(first, CObs):
+            first = first.real
+        name = first.names[0]
+        idl = first.idl[name]
 
-        r = _exp_to_jack_c(operands[0])
-        for op in operands[1:]:
+        r = None
+        for op in operands:
             if isinstance(op.flat[0], CObs):
-                r = r @ _exp_to_jack_c(op)
-            else:
-                r = r @ op
+                op = _exp_to_jack_c(op)
+            elif isinstance(op.flat[0], Obs):
+                op = _exp_to_jack(op)
+            r = op if r is None else r @ op
         return _imp_from_jack_c(r, name, idl)
     else:
         name = operands[0].flat[0].names[0]
